@@ -10,6 +10,7 @@ from .gen import HKINDS, Tree, chart_digest, gen_chart, shape_classes
 from .probes import Probes, ev_id, make_val
 from .refmodel import RefModel, legal
 from .orderrules import order_rules
+from .lockstep import first_difference, project_step
 from . import build
 
 import_sismic()
@@ -58,7 +59,8 @@ class Case:
     def __init__(self, acc, rnd, tier, case, mode, focus, gen_kw=None, via=None):
         self.acc, self.rnd, self.tier, self.case, self.mode, self.focus = acc, rnd, tier, case, mode, focus
         kw = dict(TIER[tier]['gen'])
-        kw.update(p_shared_text=0.15, p_active_call=0.1, p_twin=0.15)
+        kw.update(p_shared_text=0.15, p_active_call=0.1, p_twin=0.15, p_odd_names=0.08,
+                  priorities=(-1, 0, 0, 0, 1, 2) if rnd.random() < 0.85 else (-1000, 0, 0, 1000, 1000, 2 ** 70))
         kw.update(gen_kw or {})
         self.ch = gen_chart(rnd, mode=mode, **kw)
         self.tr = Tree(self.ch)
@@ -106,9 +108,24 @@ class Case:
             acc.count('cases_with_user_defined_evaluator')
         clock = SimulatedClock()
         if rnd.random() < 0.2:
-            clock.time = rnd.choice((8, 100, 1000.5))      # the clock does not have to be at 0 when the interpreter is created
+            # the clock does not have to be at 0 when the interpreter is created (it may even show epoch seconds)
+            clock.time = rnd.choice((8, 100, 1000.5, 1.7e9, 2.0 ** 40))
             acc.count('cases_with_preadvanced_clock')
         self.it = Interpreter(self.sc, initial_context=self.pr.context(), clock=clock, **kw_it)
+        if rnd.random() < 0.05:
+            # a listener fails while the very first 'step started' is delivered; the caller catches that and goes on:
+            # nothing had happened yet, the next call initialises the statechart as if it were the first
+            class Bomb(Exception):
+                pass
+
+            def bomb(m):
+                raise Bomb()
+            self.it.attach(bomb)
+            try:
+                self.it.execute_once()
+            except Bomb:
+                acc.count('first_call_aborted_by_a_listener')
+            self.it.detach(bomb)
         self.it.attach(self.pr.listener(self.it))
         self.model = RefModel(self.ch)
         self.model.time = clock.time        # time of the interpreter before its first step = clock value at construction
@@ -118,8 +135,11 @@ class Case:
         self.consumed = Counter()
         self.history = []           # client-boundary history (for replay files / samples)
         self.found = []
+        self.keep_alive = []
+        self.kept = []             # (step number, MacroStep object, projection taken when it was returned)
         self.stop = False
         self.was_final = False
+        self.saw_root_final = False
 
     # -- reporting ------------------------------------------------------------------------------
     def report(self, prop, key, msg, **w):
@@ -190,6 +210,25 @@ class Case:
             self.queued_n[u] += 1
             self.history.append(('queue', name, u, repr(d), self.model.time))
 
+    def op_copy(self):
+        """The run goes on with a deep copy of the interpreter (C18 says a copy continues exactly like the original; here
+        the copy simply *is* the interpreter from now on, the reference model does not notice)."""
+        import copy
+        old = self.it
+        try:
+            new = copy.deepcopy(old)
+        except Exception as e:      # noqa
+            return self.report('*', 'unexpected-exception', 'copy.deepcopy(interpreter) raised %s: %s' % (type(e).__name__, str(e)[:200]))
+        tm = dict(self.tmap)
+        for ot, nt in zip(old.statechart.transitions, new.statechart.transitions):
+            tm[id(nt)] = self.tmap[id(ot)]
+        self.tmap = tm
+        self.keep_alive.append(old)         # (ids of the old transition objects stay valid)
+        self.it = new
+        self.sc = new.statechart
+        self.history.append(('deepcopy: the copy is used from now on',))
+        self.acc.count('runs_continued_on_a_deep_copy')
+
     def op_clock(self, dt=None):
         dt = dt if dt is not None else self.rnd.choice(DT)
         self.it.clock.time += dt
@@ -216,6 +255,17 @@ class Case:
         log = list(pr.log)
         acc.count('steps_monitored')
         self.force_false = False
+        # ---- a returned MacroStep is a record of what happened: it does not change afterwards (C03) ----
+        for (kk, old_step, old_proj) in self.kept:
+            now = project_step(old_step, self.tmap)
+            if now != old_proj:
+                acc.count('returned_steps_rechecked')
+                return self.report('C03', 'returned-step-changed-later', 'the MacroStep returned by step %d reads differently after step '
+                                   '%d: %s' % (kk, k, first_difference(('step', old_proj), ('step', now))), step=k)
+        acc.count('returned_steps_rechecked', len(self.kept))
+        if step is not None:
+            self.kept.append((k, step, project_step(step, self.tmap)))
+            self.kept = self.kept[-6:]
 
         # ---- guard visibility (C01), judged on every step incl. error steps -------------------
         for ent in log:
@@ -275,6 +325,13 @@ class Case:
         if not (ok_legal and ok_trace):
             return      # both model-independent oracles were evaluated; the model-based ones need a sane step
         if exp.kind == 'error':
+            if self.focus == 'C01' and step is not None:
+                # the call returned a step although the selected transitions are in conflict: the step then does not fire
+                # "exactly those the documented semantics prescribes" either
+                got_ids = [self.tmap[id(t)] for t in step.transitions]
+                if Counter(got_ids) != Counter(exp.fired):
+                    return self.report('C01', 'transitions-differ', 'fired %r; the documented rule selects %r (which are in conflict: '
+                                       '%s should have been raised)' % (got_ids, exp.fired, sorted(exp.errs)), step=k, config=before)
             return self.report('C04', 'no-error-raised', 'selected %r need %s but execute_once returned %s'
                                % (exp.fired, sorted(exp.errs), step), step=k, config=before,
                                pair_classes=sorted(exp.pair_classes))
@@ -367,9 +424,14 @@ class Case:
         """C02 oracle, model independent: evaluated first after every normal return of execute_once."""
         acc, it, st, tr = self.acc, self.it, self.st, self.tr
         cfg = list(it.configuration)
+        self.note_entered(step)
         if it.final:
             if cfg:
                 self.report('C02', 'final-not-empty', 'final but configuration %r' % cfg, step=k)
+                return False
+            if not self.saw_root_final:
+                self.report('C02', 'final-without-final-state', 'the interpreter says it is final (configuration empty) although no '
+                            'final child of the root was ever entered', step=k)
                 return False
             self.was_final = True
             acc.count('final_reached')
@@ -576,12 +638,17 @@ class Case:
         acc.count('charts_via_' + self.via)
         p_queue = rnd.choice((0.3, 0.5, 0.7))
         p_clock = rnd.choice((0.1, 0.3, 0.5))
+        p_copy = 0.08 if rnd.random() < 0.15 else 0
         k = 0
         while k < nsteps and not self.stop:
             if (k > 0 or rnd.random() < 0.3) and rnd.random() < p_queue:
                 self.op_queue()
             if rnd.random() < p_clock:
                 self.op_clock()
+            if p_copy and rnd.random() < p_copy:
+                self.op_copy()
+                if self.stop:
+                    break
             self.step(k)
             k += 1
             if self.was_final and rnd.random() < 0.3:
@@ -593,6 +660,13 @@ class Case:
         acc.count('cases_run')
         if self.stop and not acc.violations:
             acc.count('cases_cut_short')
+
+    def note_entered(self, step):
+        root = self.ch['root']
+        for ms in (step.steps if step is not None else []):
+            for n in ms.entered_states:
+                if self.st[n]['kind'] == 'final' and self.st[n]['parent'] == root:
+                    self.saw_root_final = True
 
     def free_run(self, k, upto):
         """The run diverged from the reference model in a way that belongs to another property (wrong selection, a missing
@@ -616,9 +690,14 @@ class Case:
                 continue
             acc.count('c02_model_free_steps')
             cfg = list(it.configuration)
+            self.note_entered(step)
             if it.final:
                 if cfg:
                     return self.report('C02', 'final-not-empty', 'final but configuration %r' % cfg, step=j)
+                if not self.saw_root_final:
+                    return self.report('C02', 'final-without-final-state', 'the interpreter says it is final (configuration empty) '
+                                       'although no final child of the root was ever entered (the run had diverged earlier, in a way '
+                                       'that belongs to %s)' % self.lost_to, step=j)
                 return
             lg = legal(self.ch, cfg)
             if lg is not True:
